@@ -1072,7 +1072,19 @@ func (e *Engine) indexAddr(st *State, in *ssa.IndexAddr) ([]*State, bool) {
 		case *types.Pointer:
 			elemT = u.Elem().Underlying().(*types.Array).Elem()
 		}
-		if _, isBasic := elemT.Underlying().(*types.Basic); !isBasic {
+		_, isBasic := elemT.Underlying().(*types.Basic)
+		if isBasic {
+			// strings of different lengths cannot be selected by an ite either
+			if sv, ok := x.(SliceV); ok && sv.Arr != -1 {
+				arr := e.obj(st, sv.Arr).Val.(ArrayV)
+				hi := sv.Off + sv.Len
+				if hi > len(arr.E) {
+					hi = len(arr.E)
+				}
+				isBasic = uniformShape(arr.E[sv.Off:hi])
+			}
+		}
+		if !isBasic {
 			if _, isReg := st.top().regs[in.Index]; isReg {
 				return e.concretizeReg(st, in.Index, e.get(st, in.Index).(*Term), "index")
 			}
@@ -1756,3 +1768,24 @@ func shortFn(fn *ssa.Function) string {
 
 // Ipdom exposes the post-dominator map (debugging).
 func (e *Engine) Ipdom(fn *ssa.Function) map[*ssa.BasicBlock]*ssa.BasicBlock { return e.ipdom(fn) }
+
+// uniformShape: all values can be selected among by an ite (same scalar width / same string length).
+func uniformShape(vals []Value) bool {
+	for i := 1; i < len(vals); i++ {
+		switch a := vals[0].(type) {
+		case *Term:
+			b, ok := vals[i].(*Term)
+			if !ok || a.W != b.W {
+				return false
+			}
+		case StrV:
+			b, ok := vals[i].(StrV)
+			if !ok || len(a.B) != len(b.B) {
+				return false
+			}
+		default:
+			return false
+		}
+	}
+	return true
+}
